@@ -54,8 +54,14 @@ def plan(ctx):
     ses.sort(key=lambda s: json.dumps(s, sort_keys=True))
     rng = np.random.default_rng(3000 + ctx.seed)
     if ctx.quick:
-        pick = sorted(rng.choice(len(ses), size=420, replace=False).tolist())
-        ses = [ses[i] for i in pick]
+        # mostly histories in which a call follows a run (the others only show refusals)
+        def useful(s_):
+            ops = [o["op"] for o in s_["hist"]]
+            return "run" in ops and any(o not in ("run", "setfc") for o in ops[ops.index("run") + 1:])
+        good = [s_ for s_ in ses if useful(s_)]
+        rest = [s_ for s_ in ses if not useful(s_)]
+        ses = [good[i] for i in sorted(rng.choice(len(good), size=min(340, len(good)), replace=False).tolist())] + \
+              [rest[i] for i in sorted(rng.choice(len(rest), size=80, replace=False).tolist())]
     # every getter after a run of a random slice of ALL option combinations (depth 2, exhaustive over the slice)
     nsub = 40 if ctx.quick else 160
     allcfgs = [dict(segs=sg, ev=ev, gv=gv, bc=bc, legacy=lg, lab=lab, conn=cn) for sg in "ABCD" for ev in (False, True) for gv in (False, True)
@@ -65,13 +71,13 @@ def plan(ctx):
     cfg2 = "INIT Init\nNEXT Next\nCONSTANTS\n Cfgs <- MCCfgs\n Depth = 2\n Starts = {TRUE}\nCHECK_DEADLOCK FALSE\n" + INVS
     res2 = ctx.tlc("MC_BandApi", cfg_text=cfg2, extra_files={"MC_BandApi.tla": mc2}, requirement=True, workers=2, extra_args=("-nowarning",),
                    what="the band-structure object machine does not answer from the last successful run (all option combinations)")
-    ses2 = [s for s in sessions(res2.stdout) if s["hist"][0]["op"] == "run" and s["hist"][1]["op"] != "setfc"]
+    ses2 = [s for s in sessions(res2.stdout) if s["hist"][0]["op"] == "run" and s["hist"][1]["op"] not in ("setfc", "run")]
     ses2.sort(key=lambda s: json.dumps(s, sort_keys=True))
     want2 = 300 if ctx.quick else 3000
     if len(ses2) > want2:
         pick2 = sorted(rng.choice(len(ses2), size=want2, replace=False).tolist())
         ses2 = [ses2[i] for i in pick2]
-    if len(ses2) < 200:
+    if len(ses2) < 5 * nsub:
         raise tlcmod.MachineryError("x07: BandApi (all configurations) emitted only %d histories" % len(ses2))
     cases = []
     worlds = ["cscl", "tric", "naclF"]
